@@ -80,6 +80,14 @@ def handle (args : List String) : String :=
         | none => "M fuel"
         | some reps =>
           "M " ++ showBindings (queryWithRepairs reps q) ++ " | S " ++ showBindings (iarAnswers (specViolates C) F q) ++ h
+      | "h" =>
+        -- history on one reasoner object (query, repair-aware materialisation, query): the first answer is mode `q`'s;
+        -- the second must equal a fresh reasoner's answer on the materialised facts (compared inside the harness)
+        match computeRepairs (violates C) fuel F with
+        | none => "M fuel"
+        | some reps =>
+          "M " ++ showBindings (queryWithRepairs reps q) ++ " again=same | S " ++
+            showBindings (iarAnswers (specViolates C) F q) ++ " again=same" ++ h
       | "r" =>
         match computeRepairs (violates C) fuel F with
         | none => "M fuel"
